@@ -6,6 +6,9 @@ import (
 	"fmt"
 	"math/rand"
 	"strings"
+	"sync"
+
+	"github.com/gabriel-vasile/mimetype"
 
 	"verifharness/internal/fw"
 	"verifharness/internal/gen"
@@ -71,7 +74,7 @@ type c13Table struct {
 }
 
 func c13Cell(r *rand.Rand, delim byte, allowQuoted bool) string {
-	words := []string{"a", "b", "id", "name", "x1", "42", "3.14", "-7", "hello world", "foo.bar", "2024-01-02", "N/A", "", "", " lead", "trail ", "é", "ü", "O'Neil", "100%", "a;b", "k=v"}
+	words := []string{"5\" disk", "12\"", "say \"hi\"", "a", "b", "id", "name", "x1", "42", "3.14", "-7", "hello world", "foo.bar", "2024-01-02", "N/A", "", "", " lead", "trail ", "é", "ü", "O'Neil", "100%", "a;b", "k=v"}
 	if allowQuoted && r.Intn(6) == 0 {
 		in := []string{"x" + string(delim) + "y", "he said \"\"hi\"\"", string(delim), "a" + string(delim) + string(delim) + "b", "plain"}[r.Intn(5)]
 		return `"` + in + `"`
@@ -440,6 +443,81 @@ func c13Run(c *fw.Ctx, b fw.Batch) {
 				c.Distinct(fmt.Sprintf("dmg|%c|%d/%d|more=%v|crlf=%v|cols=%d", delim, dmg, rows, more, crlf, cols))
 			}
 		}
+	case "long-lines":
+		// size thresholds: a record of more than 64 KiB among the lines
+		long := `{"k":"` + strings.Repeat("x", 70000) + `"}`
+		for vi, lines := range [][]string{{long, `{"a":1}`, `[2]`}, {`{"a":1}`, long, `[2]`}, {`{"a":1}`, `[2]`, long, `{"b":`}, {`1`, long}} {
+			d := []byte(strings.Join(lines, "\n") + "\n")
+			lims := []uint32{0, uint32(len(d) + 1), uint32(len(d)), 80000, 1 << 20}
+			c13ConverseNdjson(c, "long-line-stream", d, lims)
+			if vi < 2 {
+				for _, L := range lims {
+					ch, ok := c13Detect(c, "long-line-stream", d, L, "expect ndjson")
+					if ok && L != 80000 {
+						if v, why := familyOrException(t, ch, "application/x-ndjson", ".ndjson"); v == "miss" {
+							c.Violate("line-format-lost", key13(d, L), fmt.Sprintf("NDJSON stream with a %d-byte record expected application/x-ndjson, got %s: %s (limit %d)", len(long), ch, why, L), fw.InCase{Kind: "long-line-stream", In: d, Limit: L, Entry: "Detect", Aux: "forward|n|0|false"})
+						}
+					}
+				}
+			}
+			c.Distinct(fmt.Sprintf("longline|%d", vi))
+		}
+		wide := strings.Repeat("cell,", 14000) + "end"
+		d := []byte(wide + "\n" + wide + "\n" + wide + "\n")
+		for _, L := range []uint32{0, uint32(len(d) + 1), 1 << 20} {
+			ch, ok := c13Detect(c, "wide-table", d, L, "expect csv")
+			if ok && !ch.HasLink("text/csv", ".csv") {
+				c.Violate("line-format-lost", key13(d, L), fmt.Sprintf("CSV table with %d-byte records reported as %s (limit %d)", len(wide), ch, L), fw.InCase{Kind: "wide-table", In: d, Limit: L, Entry: "Detect", Aux: "forward|,|0|false"})
+			}
+		}
+	case "concurrent":
+		// the same tables / streams detected by 8 goroutines at once (pooled readers are shared)
+		type probe struct {
+			d    []byte
+			want [2]string
+		}
+		var ps []probe
+		for i := 0; i < 40; i++ {
+			delim := byte(',')
+			if i%2 == 0 {
+				delim = '\t'
+			}
+			tb := c13MakeTable(r, delim, 3+r.Intn(30), 2+r.Intn(4), false, i%3 == 0, true, 0, false)
+			if ch := lib.ChainOf(lib.Detect(tb.data, 0)); ch.HasLink(c13Names[delim][0], c13Names[delim][1]) {
+				ps = append(ps, probe{tb.data, c13Names[delim]})
+			}
+		}
+		ps = append(ps, probe{[]byte("{\"a\":1}\n[2,3]\n{\"b\":{}}\n"), c13Names['n']})
+		var wg sync.WaitGroup
+		for g := 0; g < 8; g++ {
+			wg.Add(1)
+			gr := rand.New(rand.NewSource(r.Int63()))
+			go func() {
+				defer wg.Done()
+				for k := 0; k < b.N; k++ {
+					p := ps[gr.Intn(len(ps))]
+					var ch lib.Chain
+					func() {
+						defer func() {
+							if e := recover(); e != nil {
+								c.Violate("panic", key13(p.d, 0), fmt.Sprint("panic under concurrent detection: ", e), fw.InCase{Kind: "concurrent", In: p.d, Aux: "concurrent"})
+							}
+						}()
+						ch = lib.ChainOf(mimetype.Detect(p.d))
+					}()
+					c.Eval(1)
+					if ch != nil && !ch.HasLink(p.want[0], p.want[1]) {
+						c.Violate("line-format-lost", key13(p.d, 0), fmt.Sprintf("while 8 goroutines detect concurrently a rectangular table / stream is reported as %s, sequentially as %s", ch, p.want[0]), fw.InCase{Kind: "concurrent", In: p.d, Aux: "concurrent"})
+						return
+					}
+				}
+			}()
+		}
+		mimetype.SetLimit(0)
+		wg.Wait()
+		mimetype.SetLimit(3072)
+		c.Count("concurrent_detections", int64(8*b.N))
+		c.Distinct("concurrent")
 	case "single-column":
 		// lines without any delimiter: one field per record, never a table
 		for i := 0; i < b.N; i++ {
@@ -508,7 +586,7 @@ func init() {
 	fw.Register(&fw.Prop{
 		ID:    "C13",
 		Level: "exploration",
-		Rule: "forward: rectangular CSV/TSV tables (2-6 columns, 2-7 rows and some of 20-80 rows, some with a UTF-8 byte-order mark in front, LF/CRLF, optional properly quoted cells containing the delimiter, with/without final newline, occasionally the other delimiter inside cells) and NDJSON streams (one generated JSON value per line, an object/array within the first two lines) detected at EVERY limit from just past the second line's newline to len, and whole; tables with interspersed '#' comment lines (the dialect the converse clause names: comment lines are not records) are expected to be detected from the second record line on. converse: single-column files (one field per line) must not be tables; tables of simple cells (3-7 rows, and 18-62 rows) with exactly one complete line damaged (one field more/less) at every line index x every limit that keeps the damaged line complete; NDJSON streams and line soups (valid values, blank lines, 20 malformed line kinds) at every limit, judged by the reference recogniser per line. " +
+		Rule: "forward: rectangular CSV/TSV tables (2-6 columns, 2-7 rows and some of 20-80 rows, some with a UTF-8 byte-order mark in front, LF/CRLF, optional properly quoted cells containing the delimiter, with/without final newline, occasionally the other delimiter inside cells) and NDJSON streams (one generated JSON value per line, an object/array within the first two lines) detected at EVERY limit from just past the second line's newline to len, and whole; tables with interspersed '#' comment lines (the dialect the converse clause names: comment lines are not records) are expected to be detected from the second record line on. converse: single-column files (one field per line) must not be tables; tables of simple cells (3-7 rows, and 18-62 rows) with exactly one complete line damaged (one field more/less) at every line index x every limit that keeps the damaged line complete; NDJSON streams (also with records of 70 KB, and 70 KB-wide CSV rows, under raised limits), the same tables detected by 8 goroutines at once, and line soups (valid values, blank lines, 20 malformed line kinds) at every limit, judged by the reference recogniser per line. " +
 			"non-trivial = a truncated detection with the cut strictly inside the file (forward), or an input containing a damaged/malformed line (converse); distinct = distinct (family, CRLF, quoting, final newline, position of the cut relative to line structure, delimiter) / (damaged line index, row count, more/less, columns) / (soup shape) tuples.",
 		Assumptions: []string{
 			"'complete line' means newline-terminated inside the examined header when the header was cut by the limit",
@@ -527,6 +605,8 @@ func init() {
 			bs = append(bs, batches("damaged-tables", 2, nd, 1800)...)
 			bs = append(bs, batches("soups", 3, ns, 1800)...)
 			bs = append(bs, batches("single-column", 1, nd*4, 1800)...)
+			bs = append(bs, batches("long-lines", 1, 0, 1800)...)
+			bs = append(bs, batches("concurrent", 2, nd*40, 1800)...)
 			return bs
 		},
 		Run: c13Run,
@@ -550,6 +630,8 @@ func init() {
 				}
 			case "converse-ndjson":
 				c13ConverseNdjson(c, ic.Kind, ic.In, []uint32{ic.Limit})
+			case "concurrent":
+				c13Run(c, fw.Batch{Kind: "concurrent", N: 20000})
 			case "converse-single":
 				ch, ok := c13Detect(c, ic.Kind, ic.In, ic.Limit, "")
 				if ok && (ch.HasLink("text/csv", ".csv") || ch.HasLink("text/tab-separated-values", ".tsv")) {
